@@ -317,11 +317,13 @@ package kvql
 //@ define docMath(e *BinaryOpExpr, kv KVPair, ok Bool, r Any) Bool = (ok == (lok(e, kv) && rok(e, kv) && isNum(lv(e, kv)) && isNum(rv(e, kv)) && !divByZero(opChar(e.Op), rv(e, kv)))) && (ok && isInt(lv(e, kv)) && isInt(rv(e, kv)) ==> r == AInt(intOp(opChar(e.Op), intof(lv(e, kv)), intof(rv(e, kv))))) && (ok && !(isInt(lv(e, kv)) && isInt(rv(e, kv))) ==> r == AFlt(fltOp(opChar(e.Op), numOf(lv(e, kv)), numOf(rv(e, kv)))))
 //@ define docTextBetween(e *BinaryOpExpr, kv KVPair, ok Bool, r Any) Bool = (ok ==> lok(e, kv) && bshape(e) && evalok(blo(e), val(kv.Key), val(kv.Value)) && evalok(bhi(e), val(kv.Key), val(kv.Value)) && isText(lv(e, kv)) && isText(lov(e, kv)) && isText(hiv(e, kv)) && cmp(textOf(lov(e, kv)), textOf(hiv(e, kv))) <= 0 && r == ABool(cmp(textOf(lov(e, kv)), textOf(lv(e, kv))) <= 0 && cmp(textOf(lv(e, kv)), textOf(hiv(e, kv))) <= 0)) && (lok(e, kv) && bshape(e) && rtype(blo(e)) == TSTR && rtype(bhi(e)) == TSTR && evalok(blo(e), val(kv.Key), val(kv.Value)) && evalok(bhi(e), val(kv.Key), val(kv.Value)) && isText(lv(e, kv)) && isText(lov(e, kv)) && isText(hiv(e, kv)) && cmp(textOf(lov(e, kv)), textOf(hiv(e, kv))) <= 0 ==> ok)
 //@ define docNumBetween(e *BinaryOpExpr, kv KVPair, ok Bool, r Any) Bool = (ok ==> lok(e, kv) && bshape(e) && evalok(blo(e), val(kv.Key), val(kv.Value)) && evalok(bhi(e), val(kv.Key), val(kv.Value)) && isNum(lv(e, kv)) && isNum(lov(e, kv)) && isNum(hiv(e, kv))) && (ok && isInt(lv(e, kv)) && isInt(lov(e, kv)) && isInt(hiv(e, kv)) ==> intof(lov(e, kv)) <= intof(hiv(e, kv)) && r == ABool(intof(lov(e, kv)) <= intof(lv(e, kv)) && intof(lv(e, kv)) <= intof(hiv(e, kv)))) && (lok(e, kv) && bshape(e) && rtype(blo(e)) == TNUMBER && rtype(bhi(e)) == TNUMBER && evalok(blo(e), val(kv.Key), val(kv.Value)) && evalok(bhi(e), val(kv.Key), val(kv.Value)) && isInt(lv(e, kv)) && isInt(lov(e, kv)) && isInt(hiv(e, kv)) && intof(lov(e, kv)) <= intof(hiv(e, kv)) ==> ok)
-//@ define docTextIn(e *BinaryOpExpr, kv KVPair, ok Bool, r Any) Bool = ok ==> lok(e, kv) && (nitems(e) > 0 ==> isText(lv(e, kv))) && r == ABool(inTextN(e, kv, nitems(e)))
+// (IN is specified on execStringIn / execNumberIn / execInBatch themselves: its bounded existential
+// inside docBin made every instance of doc_bin carry the unfolding machinery and slowed the vector
+// dispatcher's obligations down by half.)
 //@ define docRegexp(e *BinaryOpExpr, kv KVPair, ok Bool, r Any) Bool = (ok == (lok(e, kv) && rok(e, kv) && isText(lv(e, kv)) && isText(rv(e, kv)) && reOk(textOf(rv(e, kv))))) && (ok ==> r == ABool(reMatch(textOf(rv(e, kv)), textOf(lv(e, kv)))))
 //@ define docConcat(e *BinaryOpExpr, kv KVPair, ok Bool, r Any) Bool = (ok == (lok(e, kv) && rok(e, kv))) && (ok && isText(lv(e, kv)) && isText(rv(e, kv)) ==> isstr(r) && textOf(r) == cat(textOf(lv(e, kv)), textOf(rv(e, kv))))
 //@ define isOrderOp(op Operator) Bool = op == Gt || op == Gte || op == Lt || op == Lte
-//@ define docBin(e *BinaryOpExpr, kv KVPair, ok Bool, r Any) Bool = (e.Op == Eq ==> docEq(e, kv, ok, r)) && (e.Op == NotEq ==> docNe(e, kv, ok, r)) && (e.Op == PrefixMatch ==> docPrefix(e, kv, ok, r)) && (e.Op == And || e.Op == KWAnd ==> docAnd(e, kv, ok, r)) && (e.Op == Or || e.Op == KWOr ==> docOr(e, kv, ok, r)) && (isOrderOp(e.Op) && rtype(e.Left) == TSTR ==> docTextOrder(e, kv, ok, r)) && (isOrderOp(e.Op) && rtype(e.Left) != TSTR ==> docNumOrder(e, kv, ok, r)) && (e.Op == Sub || e.Op == Mul || e.Op == Div || (e.Op == Add && rtype(e.Left) != TSTR) ==> docMath(e, kv, ok, r)) && (e.Op == Between && rtype(e.Left) == TSTR ==> docTextBetween(e, kv, ok, r)) && (e.Op == Between && rtype(e.Left) != TSTR ==> docNumBetween(e, kv, ok, r)) && (e.Op == In && rtype(e.Left) == TSTR && is(e.Right, *ListExpr) ==> docTextIn(e, kv, ok, r)) && (e.Op == RegExpMatch ==> docRegexp(e, kv, ok, r)) && (e.Op == Add && rtype(e.Left) == TSTR ==> docConcat(e, kv, ok, r))
+//@ define docBin(e *BinaryOpExpr, kv KVPair, ok Bool, r Any) Bool = (e.Op == Eq ==> docEq(e, kv, ok, r)) && (e.Op == NotEq ==> docNe(e, kv, ok, r)) && (e.Op == PrefixMatch ==> docPrefix(e, kv, ok, r)) && (e.Op == And || e.Op == KWAnd ==> docAnd(e, kv, ok, r)) && (e.Op == Or || e.Op == KWOr ==> docOr(e, kv, ok, r)) && (isOrderOp(e.Op) && rtype(e.Left) == TSTR ==> docTextOrder(e, kv, ok, r)) && (isOrderOp(e.Op) && rtype(e.Left) != TSTR ==> docNumOrder(e, kv, ok, r)) && (e.Op == Sub || e.Op == Mul || e.Op == Div || (e.Op == Add && rtype(e.Left) != TSTR) ==> docMath(e, kv, ok, r)) && (e.Op == Between && rtype(e.Left) == TSTR ==> docTextBetween(e, kv, ok, r)) && (e.Op == Between && rtype(e.Left) != TSTR ==> docNumBetween(e, kv, ok, r)) && (e.Op == RegExpMatch ==> docRegexp(e, kv, ok, r)) && (e.Op == Add && rtype(e.Left) == TSTR ==> docConcat(e, kv, ok, r))
 //
 // What the row evaluator was proved to compute, read through the definitional interface clauses
 // (result == evalv, err == nil iff evalok): the meaning of evalok / evalv on binary nodes. The
